@@ -129,6 +129,7 @@ type Gen struct {
 	callOrdinal map[*ssa.CallCommon]int
 	retOrdinal  map[*ssa.Return]int
 	curRet      *ssa.Return
+	panicSites  map[string][]token.Pos // pass 1: positions of may-panic instructions per kind (kept across reset)
 	defers      []*ssa.Defer
 	usedAxioms  map[string]bool
 	closures    map[ssa.Value]*ssa.MakeClosure
